@@ -318,6 +318,66 @@ def ob_conjugate_sequence(kind):
     return Ob("C14.conjugate.sequence.%s" % kind, "B", body, clause="real conjugate model, q moved to the posterior between evaluations (bounded)", funcs=FUNCS)
 
 
+def _real_objects_transformed():
+    """conjugate model expressed through a constraining transform WITH its Jacobian term in the joint (as the CLI builds models):
+    z unconstrained, theta = exp(z) (TransformedParameter), theta ~ LogNormal(m0, s0), y_i ~ LogNormal(z, sigma); joint = prior + likelihood +
+    log|d theta/dz| (the TransformedParameter itself).  On the z scale this is normal-normal: q = exact posterior Normal(mu_n, tau_n^-1/2)."""
+    from torchtree.core.parameter import Parameter, TransformedParameter
+    from torchtree.distributions.distributions import Distribution
+    from torchtree.distributions.joint_distribution import JointDistributionModel
+    t64 = lambda v: torch.tensor(v, dtype=torch.float64)
+    m0, s0, sigma = 0.3, 0.8, 0.6
+    y = t64([1.7, 0.4, 2.9, 1.1, 0.8])
+    n = y.numel()
+    ly = y.log()
+    z = Parameter("z", t64([0.1]))
+    theta = TransformedParameter("theta", z, torch.distributions.ExpTransform())
+    prior = Distribution("prior", torch.distributions.LogNormal, theta, {"loc": Parameter("m0", t64([m0])), "scale": Parameter("s0", t64([s0]))})
+    like = Distribution("like", torch.distributions.LogNormal, Parameter("y", y), {"loc": z, "scale": Parameter("sigma", t64([sigma]))})
+    joint = JointDistributionModel("joint", [prior, like, theta])
+    tau = 1.0 / s0 ** 2 + n / sigma ** 2
+    mu = (m0 / s0 ** 2 + float(ly.sum()) / sigma ** 2) / tau
+    q = JointDistributionModel("var", [Distribution("q", torch.distributions.Normal, z, {"loc": Parameter("qm", t64([mu])), "scale": Parameter("qs", t64([1.0 / math.sqrt(tau)]))})])
+    cov = sigma ** 2 * torch.eye(n, dtype=torch.float64) + s0 ** 2 * torch.ones(n, n, dtype=torch.float64)
+    logz = float(-ly.sum() + torch.distributions.MultivariateNormal(torch.full((n,), m0, dtype=torch.float64), covariance_matrix=cov).log_prob(ly))
+    return joint, q, z, logz
+
+
+def ob_conjugate_transformed(kind):
+    """real objects, model with a constraining transform and its Jacobian term: the objective equals the log marginal on EVERY evaluation
+    request (the Jacobian term must be that of the current draw, whoever read the transformed value first)"""
+    def body():
+        joint, q, z, logz = _real_objects_transformed()
+        n = 0
+        for samples in ((4,), (3,), (4,)):
+            obj = make_objective(kind, q, joint, samples) if n == 0 or True else None
+            break
+        obj = make_objective(kind, q, joint, (4,))
+        torch.manual_seed(5)
+        prev = None
+        for k in range(4):
+            v = float(obj())
+            draw = z.tensor.detach().clone()
+            if abs(v - logz) > 1e-8 * max(1.0, abs(logz)):
+                raise Refuted("%s on the exp-transformed normal-normal model with q = posterior: evaluation %d returns %r, log marginal %r"
+                              % (kind, k + 1, v, logz), witness={"objective": kind, "evaluation": k + 1, "value": v, "log_marginal": logz},
+                              replay={"kind": "custom", "contract": "C14", "func": "replay_conjugate_transformed", "args": {"objective": kind}}, confirmed=True)
+            if prev is not None and torch.equal(prev, draw):
+                raise Refuted("%s: evaluation %d did not draw fresh samples" % (kind, k + 1), witness={"objective": kind}, confirmed=True)
+            prev = draw
+            n += 1
+        return {"backend": "concrete", "cases": n, "statement": "exp-transformed normal-normal model (Jacobian term in the joint), q = posterior: %d consecutive evaluations equal log Z" % n}
+    return Ob("C14.conjugate.transformed.%s" % kind, "B", body, clause="real conjugate model with a constraining transform and its Jacobian in the joint, repeated evaluation (bounded)", funcs=FUNCS)
+
+
+def replay_conjugate_transformed(args):
+    try:
+        ob_conjugate_transformed(args["objective"]).fn()
+    except Refuted as e:
+        return False, e.detail
+    return True, "held"
+
+
 def replay_conjugate_sequence(args):
     try:
         ob_conjugate_sequence(args["objective"]).fn()
@@ -336,6 +396,8 @@ def replay_conjugate(args):
 
 def obligations(tier, seed):
     obs = []
+    for kind in ("ELBO", "KLpq", "VR0", "VR0.5", "CUBO"):
+        obs.append(ob_conjugate_transformed(kind))
     R = (1, 2, 3) if tier == "quick" else (1, 2, 3, 4, 5)
     kinds = ["ELBO", "KLpq", "VR0", "VR0.5", "CUBO"]
     for kind in kinds:
